@@ -381,3 +381,65 @@ def utc_program(rng, x, count, udf, rate, base=0, tbase=0, first_off=0, nq=40, e
         ops += [{"op": "utcs", "sig": 1, "id": 0}, {"op": "i2t", "sig": 1, "id": 5}, {"op": "t2i", "sig": 1, "t": tbase + 5}]
     ops.append({"op": "rclose"})
     return {"x": x, "kind": "c12", "feat": ["utc-%d" % count, "udf-%d" % udf, "rate-%d" % rate] + (["equal-times"] if equal_times else []), "ops": ops}
+
+
+STAT_TYPES = ["u1", "u4", "u8", "u16", "u32", "u64", "i4", "i8", "i16", "i32", "i64", "f32", "f64"]
+
+
+def stats_program(rng, x, dt, total, geometry=None, nreq=40, first=0, base=0):
+    """one signal of a structured stream (ramp / bit pattern) and statistics requests aimed at
+    every summary level, unaligned starts/ends, windows ending at the last sample"""
+    w = WIDTH[dt]
+    if w == 1:
+        gen = rng.choice([["bit", 2], ["bit", 3], ["bit", 5], ["bit", 7], ["ramp", 2]])
+    elif dt == "i4":
+        gen = rng.choice([["ramp", 7], ["ramp", 8], ["ramp", 5], ["bit", 3], ["bit", 11]])
+    elif w == 4:
+        gen = rng.choice([["ramp", 16], ["ramp", 7], ["ramp", 13], ["bit", 5]])
+    elif dt == "i8":
+        gen = rng.choice([["ramp", 127], ["ramp", 13], ["ramp", 7], ["bit", 9]])
+    else:
+        gen = rng.choice([["ramp", 251], ["ramp", 13], ["ramp", 7], ["ramp", 11], ["bit", 3], ["bit", 17], ["ramp", 100]])
+    spd, sdf, eps, sumdf = geometry or (small_geometry(rng, dt)[0], 0 if w <= 8 else 10, 10, 10)
+    if geometry is None:
+        spd, sdf, eps, sumdf = small_geometry(rng, dt)
+        eps, sumdf = 10, 10
+    nspd, nsdf, neps, nsum = normalise(dt, spd, sdf, eps, sumdf)
+    if w <= 8 and 0 < total % nspd < 40:
+        total += 40      # a tiny constant tail would be auto-omitted and end the execution at known finding C01-K1
+    ops = [{"op": "wopen"}, {"op": "source", "id": 1, "name": ["lit", "s"]},
+           {"op": "signal", "id": 1, "src": 1, "dt": dt, "rate": 1000, "spd": spd, "sdf": sdf, "eps": eps, "sumdf": sumdf,
+            "name": ["lit", "st"], "units": ["lit", "u"], "base": base}]
+    i = first
+    while i < first + total:
+        n = min(first + total - i, rng.choice([total, 100000, 65536, 9999, nspd, 1000]))
+        ops.append({"op": "fsr", "sig": 1, "id": base + i, "n": n, "gen": gen})
+        i += n
+    ops += [{"op": "wclose"}, {"op": "ropen"}, {"op": "len", "sig": 1}]
+    L = total
+    steps = [1]
+    m = nsdf
+    while m <= L:
+        steps.append(m)
+        m *= nsum
+    reqs = []
+    for _ in range(nreq):
+        k = rng.randrange(len(steps))
+        lo = steps[k]
+        hi = steps[k + 1] if k + 1 < len(steps) else L + 1
+        incr = rng.choice([lo, lo + 1, max(lo, hi - 1), rng.randint(lo, max(lo, min(hi - 1, L)))])
+        incr = max(1, min(incr, L))
+        maxcnt = L // incr
+        if maxcnt < 1:
+            continue
+        cnt = rng.choice([1, 1, 2, 3, 5, 25, 26, maxcnt, max(1, (25 * lo + incr - 1) // incr), rng.randint(1, maxcnt)])
+        cnt = max(1, min(cnt, maxcnt, 200))
+        span = incr * cnt
+        start = rng.choice([0, 1, L - span, max(0, L - span - 1), rng.randint(0, L - span), (rng.randint(0, L - span) // nspd) * nspd])
+        start = max(0, min(start, L - span))
+        reqs.append((start, incr, cnt))
+    for (s, inc, c) in reqs:
+        ops.append({"op": "stats", "sig": 1, "start": s, "incr": inc, "cnt": c})
+    ops.append({"op": "rclose"})
+    return {"x": x, "kind": "c02", "feat": ["type-" + dt, "gen-" + gen[0], "levels-%d" % (len(steps) - 1)], "ops": ops,
+            "model": {"sigs": {"1": {"dt": dt, "bits": w, "norm": [nspd, nsdf, neps, nsum], "length": L, "first": first}}}}
